@@ -38,6 +38,11 @@ HEADER_SETS = [
     [(b"X-T", b"a"), (b"X-T", b"")],
     [(b"X-T", b""), (b"X-T", b""), (b"X-T", b"b")],
     [(b"X-T", b" "), (b"x-t", b"0")],
+    # every registered request field name a special case might be written for, repeated: all are joined with ", "
+    [(n, b"a=1; b") for n in (b"Cookie", b"Accept", b"Accept-Encoding", b"Accept-Language", b"Cache-Control", b"Authorization", b"User-Agent", b"Referer", b"If-None-Match", b"Range", b"Via", b"Warning", b"Pragma")]
+    + [(n, b"c=2") for n in (b"cookie", b"Accept", b"Accept-Encoding", b"accept-language", b"Cache-Control", b"Authorization", b"User-Agent", b"Referer", b"If-None-Match", b"Range", b"Via", b"Warning", b"PRAGMA")],
+    [(n, b"x") for n in (b"Origin", b"If-Match", b"If-Modified-Since", b"TE", b"Trailer", b"Upgrade", b"Date", b"From", b"Max-Forwards", b"Proxy-Authorization", b"Set-Cookie")]
+    + [(n, b"y, z") for n in (b"Origin", b"If-Match", b"If-Modified-Since", b"TE", b"Trailer", b"Upgrade", b"Date", b"From", b"Max-Forwards", b"Proxy-Authorization", b"Set-Cookie")],
 ]
 BODIES = ["none", "cl", "chunked", "big-cl", "big-chunked", "huge-cl", "huge-chunked"]
 CONFIGS = [
